@@ -753,7 +753,9 @@ func contextAfterText(c context, s []byte) (context, int) {
 	}
 	// Save the link element's rel attribute value if we are parsing it for the first time.
 	if c.state == stateAttr && c.element.name == "link" && c.attr.name == "rel" && c.linkRel == "" {
-		ret.linkRel = " " + strings.Join(strings.Fields(strings.TrimSpace(strings.ToLower(string(s[:i])))), " ") + " "
+		// c.attr.value holds the static text of the attribute value seen in earlier text
+		// nodes (the value may be interrupted by template nodes), s[:i] is the rest.
+		ret.linkRel = " " + strings.Join(strings.Fields(strings.TrimSpace(strings.ToLower(c.attr.value+string(s[:i])))), " ") + " "
 	}
 	if c.delim != delimSpaceOrTagEnd {
 		// Consume any quote.
